@@ -266,6 +266,10 @@ class HistContainer(IndexedContainer):
         # mark all entries as unprocessed
         self._unprocessed_entries += self._processed_entries
         self._processed_entries = []
+        # the bin contents change: reset member error references and the cached total error
+        for _err_dict in self._error_dicts.values():
+            _err_dict["err"].reference = self._get_error_reference
+        self._clear_total_error_cache()
 
     def set_bins(self, bin_heights, underflow=0, overflow=0):
         """
@@ -287,3 +291,7 @@ class HistContainer(IndexedContainer):
         self._data = _new_data
         self._processed_entries = []
         self._unprocessed_entries = []
+        # the bin contents change: reset member error references and the cached total error
+        for _err_dict in self._error_dicts.values():
+            _err_dict["err"].reference = self._get_error_reference
+        self._clear_total_error_cache()
